@@ -823,12 +823,19 @@ def splice_body(em, body, c, fnid):
 
 def emit_fn(em, idx, c, rewrites, verify=True, in_trait_impl=False):
     fnid = short_id(c.path)
+    variant = c.opts.get("variant")
+    if variant:
+        fnid = fnid + "__" + variant
     sig, body, h = extract_fn(idx, c, rewrites, sig_only=(c.mode == "trusted") or not verify)
     if in_trait_impl:
         # trait impl methods carry no visibility
         if sig[0] == "pub":
             sig = sig[1:]
-    em.add("// ---- %s  [src sha256:%s]  props: %s" % (c.path, h, " ".join(c.props)))
+    if variant:
+        # a second contract for the same real body, emitted under another name (`f__<variant>`): used for known findings
+        k = sig.index("fn")
+        sig = sig[:k + 1] + [sig[k + 1] + "__" + variant] + sig[k + 2:]
+    em.add("// ---- %s  [src sha256:%s]  props: %s%s" % (c.path, h, " ".join(c.props), ("  variant: " + variant) if variant else ""))
     trusted = (c.mode == "trusted") or not verify
     if trusted:
         em.add("#[verifier::external_body]")
@@ -1071,14 +1078,14 @@ def emit_group(em, idx, entries, all_specs, rewrites, fninfo):
             em.add("impl %s {   // methods of a trait impl emitted as inherent methods (R24: trait dispatch dropped)" % key[1])
             for c, verify in groups[key]:
                 h = emit_fn(em, idx, c, rewrites, verify=verify)
-                fninfo.append(dict(path=c.path, props=c.props, verified=verify and c.mode != "trusted",
+                fninfo.append(dict(path=c.path, props=c.props, verified=verify and c.mode != "trusted", variant=c.opts.get("variant"),
                                    trusted_by=c.trusted_by, sha=h, vc=os.path.basename(c.src)))
             em.add("}")
             continue
         if isinstance(key, tuple):
             c, verify = groups[key][0]
             h = emit_fn(em, idx, c, rewrites, verify=verify)
-            fninfo.append(dict(path=c.path, props=c.props, verified=verify and c.mode != "trusted",
+            fninfo.append(dict(path=c.path, props=c.props, verified=verify and c.mode != "trusted", variant=c.opts.get("variant"),
                                trusted_by=c.trusted_by, sha=h, vc=os.path.basename(c.src)))
             continue
         log = []
@@ -1093,6 +1100,6 @@ def emit_group(em, idx, entries, all_specs, rewrites, fninfo):
             em.add(text)
         for c, verify in groups[key]:
             h = emit_fn(em, idx, c, rewrites, verify=verify, in_trait_impl=is_trait)
-            fninfo.append(dict(path=c.path, props=c.props, verified=verify and c.mode != "trusted",
+            fninfo.append(dict(path=c.path, props=c.props, verified=verify and c.mode != "trusted", variant=c.opts.get("variant"),
                                trusted_by=c.trusted_by, sha=h, vc=os.path.basename(c.src)))
         em.add("}")
